@@ -110,6 +110,19 @@ theorem found_is_listed (t : Tree) (p : Path) (id : Nat) (h : lookup t p = .valu
     · cases h
     · split at h <;> cases h
 
+/-- the component-by-component walk of `node_lookup` either finds nothing or finds what the flat lookup finds -/
+theorem lookupWalk_sound (t : Tree) (p : Path) : lookupWalk t p = lookup t p ∨ lookupWalk t p = .none := by
+  unfold lookupWalk; split
+  · exact Or.inl rfl
+  · exact Or.inr rfl
+
+/-- so whatever `xcm_attr_get` finds as a readable value is an attribute `xcm_attr_get_all` lists, under that name -/
+theorem walk_found_is_listed (t : Tree) (p : Path) (id : Nat) (h : lookupWalk t p = .value id true) :
+    (p, id) ∈ allValues t := by
+  rcases lookupWalk_sound t p with e | e
+  · exact found_is_listed t p id (by rw [← e]; exact h)
+  · rw [e] at h; cases h
+
 /-! non-vacuity: the tree of the harness's fixed prefix -/
 example :
     let t : Tree := add (add (add (add [] [.key [97], .key [98]] (.value 1 true)) [.key [97], .key [108]] .list)
